@@ -402,7 +402,7 @@ def run(chk):
                 hard = mode == 'real' or (d, r) not in ((4, 3), (5, 3), (4, 4), (5, 2))     # the large complex charts may exceed the solver budget: soft (reported, not a pass)
                 for (i, j), cl in gram_is_identity(X):
                     chk.add(f'to_stiefel_euler d={d} r={r} {mode}: (X^dag X)[{i},{j}] == delta for all angles', path.pc + path.facts + side_of(path), cl,
-                            key=f'to_stiefel_euler not isometric {kw_key(kw)}', replay=rp, kind='forall' if hard else 'probe_forall')
+                            key=f'to_stiefel_euler not isometric {kw_key(kw)}', replay=rp, kind='forall' if hard else 'probe_forall', timeout_s=None if hard else 150)
             if (d, r) in ((3, 2), (2, 1)):
                 batch_check('to_stiefel_euler', npar, kw, 'stiefel')
     # ---- Cholesky-L chart (np.linalg.cholesky / inv computed exactly for sizes <= 3)
